@@ -213,6 +213,15 @@ struct TaskCtx<P: Payload> {
     polls: u16,
 }
 
+/// durations in the case language are microseconds; u32::MAX stands for `Duration::MAX`
+fn dur(us: u32) -> Duration {
+    if us == u32::MAX {
+        Duration::MAX
+    } else {
+        Duration::from_micros(us as u64)
+    }
+}
+
 fn se(e: SendError) -> E {
     match e {
         SendError::Closed => E::Closed,
@@ -381,8 +390,19 @@ impl<P: Payload> TaskCtx<P> {
 
     fn run_op(&mut self, idx: usize, op: &Op) {
         let r = self.begin(idx, op);
-        let (res, opt) = self.exec_op(r, op);
-        self.end(r, res, opt);
+        // a panic that is not one of the documented ones (those are caught next to the call that must panic)
+        // unwinds only the frames of this operation; the run then ends with a report instead of unwinding the
+        // whole task (whose handle destructors would run kanal code while other tasks are abandoned)
+        let out = catch_unwind(AssertUnwindSafe(|| self.exec_op(r, op)));
+        match out {
+            Ok((res, opt)) => self.end(r, res, opt),
+            Err(_) => {
+                let msg = rt::exec::LAST_PANIC.with(|p| p.borrow().clone());
+                let loc = msg.rsplit(" @ ").next().unwrap_or("").to_string();
+                self.end(r, Res::Panicked(msg.clone()), OptAfter::NotOption);
+                rt::violation(&format!("panic/undocumented@{}", loc), format!("{:?} panicked: {}", op, msg));
+            }
+        }
     }
 
     fn exec_op(&mut self, r: usize, op: &Op) -> (Res, OptAfter) {
@@ -425,7 +445,7 @@ impl<P: Payload> TaskCtx<P> {
             }
             Op::SendTimeout { h, id, us } => {
                 let s = sender!(*h).sync_sender().unwrap();
-                let x = s.send_timeout(P::make(*id), Duration::from_micros(*us as u64));
+                let x = s.send_timeout(P::make(*id), dur(*us));
                 (
                     match x {
                         Ok(()) => Res::SendOk,
@@ -437,7 +457,7 @@ impl<P: Payload> TaskCtx<P> {
             Op::SendOptTimeout { h, id, us } => {
                 let s = sender!(*h).sync_sender().unwrap();
                 let mut o = Some(P::make(*id));
-                let x = s.send_option_timeout(&mut o, Duration::from_micros(*us as u64));
+                let x = s.send_option_timeout(&mut o, dur(*us));
                 let oa = self.opt_after(o);
                 (
                     match x {
@@ -539,7 +559,7 @@ impl<P: Payload> TaskCtx<P> {
             }
             Op::RecvTimeout { h, us } => {
                 let rx = receiver!(*h).sync_receiver().unwrap();
-                match rx.recv_timeout(Duration::from_micros(*us as u64)) {
+                match rx.recv_timeout(dur(*us)) {
                     Ok(v) => (Res::RecvOk(self.recv_ident(v)), no),
                     Err(e) => (Res::RecvErr(ret_(e)), no),
                 }
